@@ -308,6 +308,15 @@ func (u *Unit) extSpecial(call *ast.CallExpr, key string, f *types.Func, recv *V
 			return []Val{{T: r, S: srt, GT: types.NewSlice(tString)}}, true
 		}
 		return nil, false
+	case "path/filepath.Abs":
+		// the result of a successful Abs is an absolute path
+		res := u.callExternalDefault(call, key, f, recv, args, st)
+		if len(res) == 2 {
+			name := fmt.Sprintf("ext_%s_%d", sanitize("path/filepath.IsAbs"), 0) + sortSuffix([]string{"String"})
+			u.reg.declare(name, []string{"String"}, "Bool")
+			st.assume(implies(eq(res[1].T, "0"), "("+name+" "+res[0].T+")"))
+		}
+		return res, true
 	case "strings.Cut":
 		s0, sep := args[0].T, args[1].T
 		has := "(str.contains " + s0 + " " + sep + ")"
@@ -371,6 +380,9 @@ func (u *Unit) extSpecial(call *ast.CallExpr, key string, f *types.Func, recv *V
 		return nil, true
 	case "sort.Strings", "sort.Slice":
 		// in-place permutation of the slice argument
+		if call != nil && key == "sort.Slice" && !u.inSpec {
+			u.sortTotalCheck(call, st)
+		}
 		if call != nil {
 			saved0 := u.noSafety
 			u.noSafety = true
@@ -464,4 +476,43 @@ func canonicalExtKey(key string) string {
 		return "go/types.Type." + parts[1]
 	}
 	return key
+}
+
+// sortTotalCheck: `sortcall N total` -- the comparator of the N-th sort.Slice call decides every pair of
+// distinct elements (exactly one of less(i,j), less(j,i)): sort.Slice is not stable, so a tie between two
+// elements that came out of a map range would leave their order to the map's iteration order (C09).
+func (u *Unit) sortTotalCheck(call *ast.CallExpr, st *State) {
+	u.sortOrd++
+	ord := u.sortOrd
+	if u.con == nil || u.con.SortCall[ord] != "total" || len(call.Args) != 2 || len(u.inlineStack) > 0 {
+		return
+	}
+	lit, ok := ast.Unparen(call.Args[1]).(*ast.FuncLit)
+	if !ok {
+		u.oblige(st, fmt.Sprintf("sort#%d#total", ord), "commute", "false", []string{"C09"}, nil, "comparator of sort.Slice is not a function literal", call)
+		return
+	}
+	savedSafety := u.noSafety
+	u.noSafety = true
+	defer func() { u.noSafety = savedSafety }()
+	base := st.clone()
+	xs := u.evalExpr(call.Args[0], base)
+	if !u.reg.isSlice(xs.S) {
+		return
+	}
+	a := Val{T: u.reg.fresh("si", "Int"), S: "Int", GT: types.Typ[types.Int]}
+	b := Val{T: u.reg.fresh("sj", "Int"), S: "Int", GT: types.Typ[types.Int]}
+	ln := "(len_" + xs.S + " " + xs.T + ")"
+	base.assume(and("(<= 0 "+a.T+")", "(< "+a.T+" "+ln+")", "(<= 0 "+b.T+")", "(< "+b.T+" "+ln+")"))
+	ea := "(select (arr_" + xs.S + " " + xs.T + ") " + a.T + ")"
+	eb := "(select (arr_" + xs.S + " " + xs.T + ") " + b.T + ")"
+	base.assume(not(eq(ea, eb)))
+	c := &closure{lit: lit}
+	r1 := u.inlineClosure(c, []Val{a, b}, base, "less")
+	r2 := u.inlineClosure(c, []Val{b, a}, base, "less")
+	if len(r1) != 1 || len(r2) != 1 {
+		return
+	}
+	u.oblige(base, fmt.Sprintf("sort#%d#total", ord), "commute", not(eq(r1[0].T, r2[0].T)), []string{"C09"}, nil,
+		"the comparator decides every pair of distinct elements of "+exprString(call.Args[0])+" (no tie is left to the incoming order)", call)
 }
